@@ -12,8 +12,11 @@ import (
 	gerrors "github.com/acquirecloud/golibs/errors"
 	"github.com/acquirecloud/golibs/kvs"
 	"pgregory.net/rapid"
+	"verifharness/internal/lockstep"
 	"verifharness/internal/vstat"
 )
+
+func lockstepSqueeze(withLock func(func()), first, second func()) { lockstep.Squeeze(withLock, first, second) }
 
 // ---------------------------------------------------------------------------------------------
 // C03: the in-memory backend alone against the model, with records written already expired
@@ -265,3 +268,131 @@ func TestC07Hammer(t *testing.T) {
 		st.AddExtra("hammer_register_vs_write_rounds", int64(c.Rounds*c.Pairs))
 	})
 }
+
+// ---------------------------------------------------------------------------------------------
+// squeeze: the in-memory backend's operations forced into "A's first critical section, all of B, A's next critical
+// section" through the storage mutex (internal/lockstep). Every operation of the real backend is one critical section,
+// so it simply runs A then B; a check-then-act split shows at once.
+
+// SqueezeCase names the two racing operations.
+type SqueezeCase struct {
+	A, B string `json:"-"`
+	Pair string `json:"pair"`
+	Exp  bool   `json:"exp"`
+}
+
+func runSqueeze(pair string) *vstat.Violation {
+	ctx := context.Background()
+	st := InmemDriver().St
+	lock := func(f func()) { withStorageLock(st, f) }
+	switch pair {
+	case "create-create", "create-put":
+		var e1, e2 error
+		lockstepSqueeze(lock, func() { _, e1 = st.Create(ctx, kvs.Record{Key: "k", Value: []byte("a")}) },
+			func() {
+				if pair == "create-put" {
+					_, e2 = st.Put(ctx, kvs.Record{Key: "k", Value: []byte("b")})
+				} else {
+					_, e2 = st.Create(ctx, kvs.Record{Key: "k", Value: []byte("b")})
+				}
+			})
+		if pair == "create-create" && (e1 == nil) == (e2 == nil) {
+			return vstat.V("inmem:create-two-winners", "two Create calls on one fresh key, forced to overlap: results %v and %v (want exactly one nil, one ErrExist)", e1, e2)
+		}
+		r, err := st.Get(ctx, "k")
+		if err != nil {
+			return vstat.V("inmem:get-after-write", "Get after the race failed: %v", err)
+		}
+		if pair == "create-put" && e1 == nil && string(r.Value) == "a" && e2 == nil {
+			// Create succeeded => it ran first => the Put came second and must have overwritten it
+			return vstat.V("inmem:create-overwrote-put", "Create and Put forced to overlap: both succeeded and the stored value is Create's - the Create inserted over the Put's record")
+		}
+		if (e1 != nil && !gerrors.Is(e1, gerrors.ErrExist)) || (pair == "create-create" && e2 != nil && !gerrors.Is(e2, gerrors.ErrExist)) {
+			return vstat.V("inmem:undocumented-outcome:create", "Create returned %v / %v", e1, e2)
+		}
+	case "cas-cas", "cas-put", "cas-delete":
+		r0, _ := st.Put(ctx, kvs.Record{Key: "k", Value: []byte("0")})
+		var e1, e2 error
+		lockstepSqueeze(lock, func() { _, e1 = st.CasByVersion(ctx, kvs.Record{Key: "k", Value: []byte("a"), Version: r0.Version}) },
+			func() {
+				switch pair {
+				case "cas-cas":
+					_, e2 = st.CasByVersion(ctx, kvs.Record{Key: "k", Value: []byte("b"), Version: r0.Version})
+				case "cas-put":
+					_, e2 = st.Put(ctx, kvs.Record{Key: "k", Value: []byte("b")})
+				default:
+					e2 = st.Delete(ctx, "k")
+				}
+			})
+		if pair == "cas-cas" && e1 == nil && e2 == nil {
+			return vstat.V("inmem:cas-two-winners", "two CasByVersion calls against one version, forced to overlap, both succeeded")
+		}
+		if pair == "cas-put" && e1 == nil && e2 == nil {
+			if r, err := st.Get(ctx, "k"); err == nil && string(r.Value) == "a" {
+				// CAS succeeded => it was ordered before the Put => the Put's value must be the stored one
+				return vstat.V("inmem:cas-overwrote-put", "CasByVersion and Put forced to overlap: both succeeded but the stored value is the CAS's although the CAS saw the version from before the Put")
+			}
+		}
+		if pair == "cas-delete" && e1 == nil && e2 == nil {
+			if _, err := st.Get(ctx, "k"); err == nil {
+				return vstat.V("inmem:cas-resurrected", "CasByVersion and Delete forced to overlap: both succeeded and the record exists afterwards")
+			}
+		}
+	case "wait-put", "wait-cas", "wait-delete", "wait-putmany":
+		r0, _ := st.Put(ctx, kvs.Record{Key: "k", Value: []byte("0")})
+		done := make(chan error, 1)
+		wctx, cancel := context.WithCancel(ctx)
+		defer cancel()
+		lockstepSqueeze(lock, func() { done <- st.WaitForVersionChange(wctx, "k", r0.Version) },
+			func() {
+				switch pair {
+				case "wait-put":
+					st.Put(ctx, kvs.Record{Key: "k", Value: []byte("b")})
+				case "wait-cas":
+					st.CasByVersion(ctx, kvs.Record{Key: "k", Value: []byte("b"), Version: r0.Version})
+				case "wait-putmany":
+					st.PutMany(ctx, []kvs.Record{{Key: "k", Value: []byte("b")}, {Key: "k2", Value: []byte("c")}})
+				default:
+					st.Delete(ctx, "k")
+				}
+			})
+		select {
+		case err := <-done:
+			if pair == "wait-delete" {
+				if !gerrors.Is(err, gerrors.ErrNotExist) {
+					return vstat.V("inmem:wait-result", "the key was deleted while a WaitForVersionChange for it was starting; the waiter returned %v, want ErrNotExist", err)
+				}
+			} else if err != nil {
+				return vstat.V("inmem:wait-result", "the key was given a new version while a WaitForVersionChange for the old one was starting; the waiter returned %v, want nil", err)
+			}
+		case <-time.After(5 * time.Second):
+			return vstat.V("inmem:wait-not-woken", "the key was changed (%s) while a WaitForVersionChange for the old version was between its check and its registration; 5 s later the waiter is still blocked (lost wake-up)", pair)
+		}
+		cancel()
+		time.Sleep(time.Millisecond)
+		if e, n, ok := waiterTable(st); ok && (e != 0 || n != 0) {
+			return vstat.V("inmem:waiter-table-residue", "the waiter is gone but the waiter table has %d entries / %d waiters", e, n)
+		}
+	}
+	return nil
+}
+
+var squeezePairs = []string{"create-create", "create-put", "cas-cas", "cas-put", "cas-delete", "wait-put", "wait-cas", "wait-delete", "wait-putmany"}
+
+func testSqueeze(t *testing.T, prop string, pairs []string) {
+	if !hooksOn {
+		t.Skip("inmem hooks unavailable")
+	}
+	st := vstat.For(prop)
+	reps := vstat.Pick(15, 200)
+	for _, pair := range pairs {
+		for i := 0; i < reps; i++ {
+			v := vstat.Guard("inmem:panic", func() *vstat.Violation { return runSqueeze(pair) })
+			st.Report(t, "Test"+prop+"Squeeze", SqueezeCase{Pair: pair}, v)
+			st.Case(true, vstat.Hash(pair)^uint64(prop[2]), func() any { return map[string]any{"squeezed_pair": pair} }, "squeeze:"+pair)
+		}
+	}
+}
+
+func TestC02Squeeze(t *testing.T) { testSqueeze(t, "C02", squeezePairs[:5]) }
+func TestC07Squeeze(t *testing.T) { testSqueeze(t, "C07", squeezePairs[5:]) }
